@@ -7,9 +7,10 @@ Spaces (DESIGN.md section 4, C09); everything listed is enumerated completely, n
   tuples   : every mixed-radix tuple for n=1 (6) and n=2 (720); n=3: quick = every inner tuple (720) x every outer digit
              pair (a3,b3) with a3 in {0,max} or b3 in {0,1,2,4,8,16,max} (491 of 2016 cosets, 353 520 tuples), thorough = all 1 451 520.
              Per tuple: from_int_tuple -> binary uint8 matrix, M L M^T = L and M^T L M = L, to_int_tuple(M) == tuple,
-             inverse(M) two-sided. Across workers (finalize): images pairwise distinct, their number == get_number(n,'order')
+             inverse(M) two-sided. Over the whole domain: images pairwise distinct, their number == get_number(n,'order')
              == product formula, and for n <= 2 the image set == the group obtained by brute-force filtering of all
-             2^(4n^2) binary matrices.
+             2^(4n^2) binary matrices. n <= 2 is one work unit per n (kind 'bijection'); n = 3 is one work unit per outer
+             coset (kind 'tuples', 720 tuples each), the packed images are merged and compared across workers in finalize.
   group    : the other direction for n <= 2: every matrix of the brute-force group -> to_int_tuple in range, distinct,
              from_int_tuple(to_int_tuple(M)) == M, inverse(M) two-sided.
   big      : n = 3..10, structured tuple alphabet replacing "random tuples": all-zero, all-max, one position at max / at zero,
@@ -40,7 +41,8 @@ RULE = ('state = one input point of a completely enumerated finite domain (a mix
         'transition = one call of from_int_tuple / to_int_tuple / inverse / find_transvection / transvection / rand_SpF2 / get_number '
         'compared with integer arithmetic mod 2; trace = one tuple (or matrix) taken through from -> symplectic test -> to -> inverse '
         'in lock-step; outcome = the returned matrix / transvection pair; non-trivial = not the identity matrix / not the zero pair. '
-        'Cross-worker invariants (pairwise distinct images, count == group order, image set == brute-force group) in finalize.')
+        'Whole-domain invariants (pairwise distinct images, count == group order, image set == brute-force group for n<=2) inside the '
+        'n<=2 work units and, for n=3 and the structured alphabet, across workers in finalize.')
 ASSUMPTIONS = [
     'the symplectic form is L = [[0,1],[1,0]] (x) 1_n (as in the repository tests); over F2 the sign convention is immaterial',
     '|Sp(2n,F2)| = 2^(n^2) prod_{i<=n} (4^i - 1) is taken from the literature; for n <= 2 it is re-derived by brute-force filtering',
@@ -49,6 +51,17 @@ ASSUMPTIONS = [
     'n >= 4 is covered on the structured alphabet only (zero/max/single-position sweeps/atoms), not exhaustively',
 ]
 CHUNK = 1
+
+
+def _viol(out, key, what, **detail):
+    """out.violation with a cap of 5 materialised records per key and case (all are counted): a flood on one key must
+    not push later findings of the same case beyond Out.MAX_VIOL_PER_CASE"""
+    seen = out.__dict__.setdefault('_c09_per_key', {})
+    seen[key] = seen.get(key, 0) + 1
+    if seen[key] <= 5:
+        out.violation(key, what, **detail)
+    else:
+        out.n_violations += 1
 
 
 # ------------------------------------------------------------------ reference helpers (independent of numqi)
@@ -143,6 +156,7 @@ def check_tuples(numqi, out, n, tuples, site):
     """from -> valid -> symplectic -> to -> inverse for every tuple; returns list of (tuple, packed matrix or None)"""
     sp = numqi.group.spf2
     eye = np.eye(2 * n, dtype=np.int64)
+    L = ref.symplectic_form(n).astype(np.int64)
     ident = pack(np.eye(2 * n, dtype=np.uint8))
     good, mats, invs, ret = [], [], [], []
     for t in tuples:
@@ -151,47 +165,51 @@ def check_tuples(numqi, out, n, tuples, site):
         try:
             M = sp.from_int_tuple(tuple(t))
         except Exception as e:
-            out.violation('%s/from_int_tuple/%s' % (site, type(e).__name__), 'from_int_tuple raised %r on an in-range tuple' % (e,), n=n, int_tuple=list(t))
+            _viol(out, '%s/from_int_tuple/%s' % (site, type(e).__name__), 'from_int_tuple raised %r on an in-range tuple' % (e,), n=n, int_tuple=list(t))
             ret.append((t, None))
             continue
         if not valid_matrix(M, n):
-            out.violation('%s/from_int_tuple/bad_output' % site, 'result is not a binary uint8 (2n,2n) matrix: shape %s dtype %s' % (getattr(M, 'shape', None), getattr(M, 'dtype', None)),
+            _viol(out, '%s/from_int_tuple/bad_output' % site, 'result is not a binary uint8 (2n,2n) matrix: shape %s dtype %s' % (getattr(M, 'shape', None), getattr(M, 'dtype', None)),
                           n=n, int_tuple=list(t), result=M)
             ret.append((t, None))
             continue
         key = pack(M)
         ret.append((t, key))
         out.outcome(b'M%d:' % n + key, nontrivial=key != ident, pre_digested=True)
+        M64 = M.astype(np.int64)
+        sa = np.array_equal((M64 @ L @ M64.T) % 2, L)
+        sb = np.array_equal((M64.T @ L @ M64) % 2, L)
+        if not (sa and sb):
+            # a non-symplectic matrix is outside the domain of to_int_tuple / inverse: nothing further is demanded of it
+            _viol(out, '%s/from_int_tuple/not_symplectic' % site, 'image does not preserve the symplectic form (M L M^T == L: %s, M^T L M == L: %s)' % (sa, sb),
+                  n=n, int_tuple=list(t), matrix=M)
+            continue
         # inverse map
         out.trans()
         try:
             t2 = sp.to_int_tuple(M.copy())
         except Exception as e:
-            out.violation('%s/to_int_tuple/%s' % (site, type(e).__name__), 'to_int_tuple raised %r on from_int_tuple(t)' % (e,), n=n, int_tuple=list(t), matrix=M)
+            _viol(out, '%s/to_int_tuple/%s' % (site, type(e).__name__), 'to_int_tuple raised %r on from_int_tuple(t)' % (e,), n=n, int_tuple=list(t), matrix=M)
             t2 = None
         if t2 is not None and not (isinstance(t2, tuple) and len(t2) == len(t) and all(int(a) == int(b) for a, b in zip(t2, t))):
-            out.violation('%s/to_int_tuple/roundtrip' % site, 'to_int_tuple(from_int_tuple(t)) = %s != t = %s' % (list(t2) if isinstance(t2, tuple) else t2, list(t)),
+            _viol(out, '%s/to_int_tuple/roundtrip' % site, 'to_int_tuple(from_int_tuple(t)) = %s != t = %s' % (list(t2) if isinstance(t2, tuple) else t2, list(t)),
                           n=n, int_tuple=list(t), matrix=M, got=list(t2) if isinstance(t2, tuple) else repr(t2))
         # closed-form inverse
         out.trans()
         try:
             Minv = sp.inverse(M.copy())
         except Exception as e:
-            out.violation('%s/inverse/%s' % (site, type(e).__name__), 'inverse raised %r on a symplectic matrix' % (e,), n=n, int_tuple=list(t), matrix=M)
+            _viol(out, '%s/inverse/%s' % (site, type(e).__name__), 'inverse raised %r on a symplectic matrix' % (e,), n=n, int_tuple=list(t), matrix=M)
             Minv = None
         if Minv is not None and not (isinstance(Minv, np.ndarray) and Minv.shape == M.shape):
-            out.violation('%s/inverse/bad_output' % site, 'inverse returned shape %s' % (getattr(Minv, 'shape', None),), n=n, int_tuple=list(t), matrix=M)
+            _viol(out, '%s/inverse/bad_output' % site, 'inverse returned shape %s' % (getattr(Minv, 'shape', None),), n=n, int_tuple=list(t), matrix=M)
             Minv = None
         good.append(t)
-        mats.append(M.astype(np.int64))
+        mats.append(M64)
         invs.append(None if Minv is None else Minv.astype(np.int64))
         out.trace()
     if mats:
         Ms = np.stack(mats)
-        a, b = is_symplectic_batch(Ms, n)
-        for i in np.nonzero(~(a & b))[0][:5]:
-            out.violation('%s/from_int_tuple/not_symplectic' % site, 'image does not preserve the symplectic form (M L M^T == L: %s, M^T L M == L: %s)' % (bool(a[i]), bool(b[i])),
-                          n=n, int_tuple=list(good[i]), matrix=mats[i])
         idx = [i for i in range(len(invs)) if invs[i] is not None]
         if idx:
             Mi = np.stack([invs[i] for i in idx])
@@ -200,9 +218,39 @@ def check_tuples(numqi, out, n, tuples, site):
             right = np.all((Mm @ Mi) % 2 == eye, axis=(1, 2))
             for j in np.nonzero(~(left & right))[0][:5]:
                 i = idx[j]
-                out.violation('%s/inverse/not_two_sided' % site, 'inverse(M) is not a two-sided inverse (inv.M == 1: %s, M.inv == 1: %s)' % (bool(left[j]), bool(right[j])),
+                _viol(out, '%s/inverse/not_two_sided' % site, 'inverse(M) is not a two-sided inverse (inv.M == 1: %s, M.inv == 1: %s)' % (bool(left[j]), bool(right[j])),
                               n=n, int_tuple=list(good[i]), matrix=mats[i], inverse=invs[i])
     return ret
+
+
+def report_collisions(out, n, res, site):
+    """distinct tuples must give distinct matrices (within one case; across cases see finalize)"""
+    seen = {}
+    for t, k in res:
+        if k is None:
+            continue
+        if k in seen and seen[k] != tuple(t):
+            _viol(out, '%s/from_int_tuple/collision' % site, 'distinct tuples %s and %s give the same matrix' % (list(seen[k]), list(t)),
+                          n=n, int_tuple_a=list(seen[k]), int_tuple_b=list(t), matrix=np.unpackbits(np.frombuffer(k, dtype=np.uint8))[:4 * n * n].reshape(2 * n, 2 * n))
+        else:
+            seen[k] = tuple(t)
+    return seen
+
+
+def whole_domain_invariants(numqi, out, n, seen, n_tuples):
+    """seen: packed image -> tuple for *all* tuples of this n. Count == order (implementation's and the formula), image set == group."""
+    out.trans()
+    order_impl = int(numqi.group.spf2.get_number(n, kind='order'))
+    if not (len(seen) == order_impl == ref.sp_order(n)):
+        _viol(out, 'tuples/from_int_tuple/count_ne_order', 'number of distinct images %d (from %d tuples), get_number(n,"order") = %d, 2^(n^2) prod(4^i-1) = %d' % (len(seen), n_tuples, order_impl, ref.sp_order(n)), n=n)
+    if n <= 2:
+        gset = {pack(M): M for M in ref.all_symplectic(n)}
+        missing = [gset[k] for k in gset if k not in seen]
+        extra = [seen[k] for k in seen if k not in gset]
+        if missing:
+            _viol(out, 'tuples/from_int_tuple/not_onto', '%d symplectic matrices are never produced by from_int_tuple' % len(missing), n=n, first_missing=missing[0])
+        if extra:
+            _viol(out, 'tuples/from_int_tuple/outside_group', '%d images are not in the brute-force group' % len(extra), n=n, first_int_tuple=list(extra[0]))
 
 
 # ------------------------------------------------------------------ case lists
@@ -240,9 +288,8 @@ def build_cases(tier, seed):
     cases.append({'kind': 'number', 'n_max': 12})
     cases.append({'kind': 'bits', 'w_max': 16 if thorough else 12, 'w_pattern_max': 24})
     # ---- all tuples
-    cases.append({'kind': 'tuples', 'n': 1, 'lo': 0, 'hi': 6})
-    for lo in range(0, 720, 72):
-        cases.append({'kind': 'tuples', 'n': 2, 'lo': lo, 'hi': lo + 72})
+    cases.append({'kind': 'bijection', 'n': 1})
+    cases.append({'kind': 'bijection', 'n': 2})
     cases.append({'kind': 'group', 'n': 1})
     cases.append({'kind': 'group', 'n': 2})
     # ---- find_transvection: all ordered pairs
@@ -300,6 +347,16 @@ def prepare(env):
 
 
 # ------------------------------------------------------------------ rand_SpF2: depth-first over the environment's answers
+def admitted(call):
+    """the answers a logged random.Random call admits (semantics of the stdlib: randint inclusive, randrange exclusive)"""
+    if call[0] == 'randint':
+        return range(int(call[1]), int(call[2]) + 1)
+    if call[0] == 'randrange':
+        start, stop, step = call[1], call[2], call[3]
+        return range(int(start), int(stop), int(step)) if stop is not None else range(int(start))
+    return range(1 << int(call[1]))  # getrandbits(k)
+
+
 def rand_leaves(numqi, n, kind, prefix, out, budget):
     """yield (answers, log, result) for every answer sequence the library's own randint calls admit, starting with prefix"""
     stack = [list(prefix)]
@@ -309,15 +366,7 @@ def rand_leaves(numqi, n, kind, prefix, out, budget):
         try:
             res = numqi.random.rand_SpF2(n, return_kind=kind, seed=stub)
         except seams.StubExhausted:
-            call = stub.log[-1]
-            if call[0] == 'randint':
-                lo, hi = int(call[1]), int(call[2])
-                vals = list(range(lo, hi + 1))
-            elif call[0] == 'randrange':
-                start, stop, step = call[1], call[2], call[3]
-                vals = list(range(start, stop, step)) if stop is not None else list(range(start))
-            else:
-                vals = list(range(1 << int(call[1])))
+            vals = list(admitted(stub.log[-1]))
             budget[0] -= len(vals)
             if budget[0] < 0:
                 yield None
@@ -334,7 +383,7 @@ def rand_leaves(numqi, n, kind, prefix, out, budget):
 def run_case(case, out, env):
     import numqi
     sp = numqi.group.spf2
-    kind = case['kind']
+    kind = case.get('kind')
     if kind == 'number':
         for n in range(1, case['n_max'] + 1):
             out.state()
@@ -344,7 +393,7 @@ def run_case(case, out, env):
                 try:
                     got[k] = sp.get_number(n, kind=k)
                 except Exception as e:
-                    out.violation('number/get_number/%s/%s' % (k, type(e).__name__), 'get_number(%d,%r) raised %r' % (n, k, e), n=n, kind=k)
+                    _viol(out, 'number/get_number/%s/%s' % (k, type(e).__name__), 'get_number(%d,%r) raised %r' % (n, k, e), n=n, kind=k)
             if 'base' in got:
                 out.check(tuple(int(x) for x in got['base']) == ref_bases(n), 'number/get_number/base', 'get_number(%d,"base") = %s, expected (4^k-1, 2^(2k-1))_k = %s' % (n, got['base'], ref_bases(n)), n=n)
                 out.trans()
@@ -368,12 +417,12 @@ def run_case(case, out, env):
                 b = sp.int_to_bitarray(i, w)
                 j = sp.bitarray_to_int(ref_bits(i, w))
             except Exception as e:
-                out.violation('bits/int_to_bitarray/%s' % type(e).__name__, 'raised %r for i=%d width=%d' % (e, i, w), i=i, width=w)
+                _viol(out, 'bits/int_to_bitarray/%s' % type(e).__name__, 'raised %r for i=%d width=%d' % (e, i, w), i=i, width=w)
                 return
             if not (isinstance(b, np.ndarray) and b.shape == (w,) and np.array_equal(b, ref_bits(i, w))):
-                out.violation('bits/int_to_bitarray/not_little_endian', 'int_to_bitarray(%d,%d) = %s, expected %s' % (i, w, np.asarray(b).tolist(), ref_bits(i, w).tolist()), i=i, width=w)
+                _viol(out, 'bits/int_to_bitarray/not_little_endian', 'int_to_bitarray(%d,%d) = %s, expected %s' % (i, w, np.asarray(b).tolist(), ref_bits(i, w).tolist()), i=i, width=w)
             if j != i:
-                out.violation('bits/bitarray_to_int/wrong', 'bitarray_to_int(%s) = %s, expected %d' % (ref_bits(i, w).tolist(), j, i), i=i, width=w)
+                _viol(out, 'bits/bitarray_to_int/wrong', 'bitarray_to_int(%s) = %s, expected %d' % (ref_bits(i, w).tolist(), j, i), i=i, width=w)
             out.outcome((w, i), nontrivial=i != 0)
         for w in range(1, case['w_max'] + 1):
             for i in range(1 << w):
@@ -383,11 +432,25 @@ def run_case(case, out, env):
             for i in sorted(pats):
                 one(i, w)
         out.sample = {'kind': 'bits', 'example': 'int_to_bitarray(3,4) == [1,1,0,0]'}
+    elif kind == 'finalize' or case.get('finalize'):
+        replay_finalize(numqi, out)
+    elif kind == 'bijection':
+        # the whole domain of one n in one worker: per-tuple lock-step checks + the counting argument
+        n = case['n']
+        bases = ref_bases(n)
+        tuples = [unrank(bases, r) for r in range(prod(bases))]
+        res = check_tuples(numqi, out, n, tuples, 'tuples')
+        seen = report_collisions(out, n, res, 'tuples')
+        if all(k is not None for _, k in res):
+            whole_domain_invariants(numqi, out, n, seen, len(tuples))
+        out.outcome(('distinct_images', n, len(seen)), nontrivial=True)
+        out.sample = {'kind': 'bijection', 'n': n, 'int_tuple': list(tuples[-1]), 'distinct_images': len(seen)}
     elif kind == 'tuples':
         n = case['n']
         bases = ref_bases(n)
         tuples = [unrank(bases, r) for r in range(case['lo'], case['hi'])]
         res = check_tuples(numqi, out, n, tuples, 'tuples')
+        report_collisions(out, n, res, 'tuples')
         blob = b''.join((k if k is not None else b'\xff' * len(pack(np.zeros((2 * n, 2 * n), dtype=np.uint8)))) for _, k in res)
         out.agg = ('tuples', n, case['lo'], case['hi'], blob, sum(k is None for _, k in res))
         out.sample = {'kind': 'tuples', 'n': n, 'int_tuple': list(tuples[-1])}
@@ -403,28 +466,28 @@ def run_case(case, out, env):
             try:
                 t = sp.to_int_tuple(M.copy())
             except Exception as e:
-                out.violation('group/to_int_tuple/%s' % type(e).__name__, 'to_int_tuple raised %r on a symplectic matrix' % (e,), n=n, matrix=M)
+                _viol(out, 'group/to_int_tuple/%s' % type(e).__name__, 'to_int_tuple raised %r on a symplectic matrix' % (e,), n=n, matrix=M)
                 continue
             ok = isinstance(t, tuple) and len(t) == 2 * n and all(float(d) == int(d) and 0 <= int(d) < b for d, b in zip(t, bases))
             if not ok:
-                out.violation('group/to_int_tuple/out_of_range', 'to_int_tuple(M) = %r is not a tuple inside the radix ranges %s' % (t, list(bases)), n=n, matrix=M)
+                _viol(out, 'group/to_int_tuple/out_of_range', 'to_int_tuple(M) = %r is not a tuple inside the radix ranges %s' % (t, list(bases)), n=n, matrix=M)
                 continue
             t = tuple(int(d) for d in t)
             if t in seen:
-                out.violation('group/to_int_tuple/collision', 'two distinct symplectic matrices get the same tuple %s' % (list(t),), n=n, matrix=M, other=seen[t])
+                _viol(out, 'group/to_int_tuple/collision', 'two distinct symplectic matrices get the same tuple %s' % (list(t),), n=n, matrix=M, other=seen[t])
             seen[t] = M
             out.trans()
             try:
                 M2 = sp.from_int_tuple(t)
                 if not np.array_equal(M2, M):
-                    out.violation('group/from_int_tuple/not_inverse_of_to_int_tuple', 'from_int_tuple(to_int_tuple(M)) != M', n=n, matrix=M, int_tuple=list(t), got=M2)
+                    _viol(out, 'group/from_int_tuple/not_inverse_of_to_int_tuple', 'from_int_tuple(to_int_tuple(M)) != M', n=n, matrix=M, int_tuple=list(t), got=M2)
             except Exception as e:
-                out.violation('group/from_int_tuple/%s' % type(e).__name__, 'from_int_tuple raised %r on to_int_tuple(M)' % (e,), n=n, matrix=M, int_tuple=list(t))
+                _viol(out, 'group/from_int_tuple/%s' % type(e).__name__, 'from_int_tuple raised %r on to_int_tuple(M)' % (e,), n=n, matrix=M, int_tuple=list(t))
             out.trans()
             Mi = sp.inverse(M.copy()).astype(np.int64)
             Mm = M.astype(np.int64)
             if not (Mi.shape == Mm.shape and np.array_equal((Mi @ Mm) % 2, eye) and np.array_equal((Mm @ Mi) % 2, eye)):
-                out.violation('group/inverse/not_two_sided', 'inverse(M) is not a two-sided inverse', n=n, matrix=M, inverse=Mi)
+                _viol(out, 'group/inverse/not_two_sided', 'inverse(M) is not a two-sided inverse', n=n, matrix=M, inverse=Mi)
             out.outcome((n, t), nontrivial=not np.array_equal(Mm, eye))
             out.trace()
         out.check(len(seen) == len(G) or out.n_violations > 0, 'group/to_int_tuple/count', 'number of distinct tuples %d != group size %d' % (len(seen), len(G)), n=n)
@@ -445,10 +508,10 @@ def run_case(case, out, env):
                     h = sp.find_transvection(v0.copy(), v1.copy())
                 except Exception as e:
                     br = transv_branch(v0, v1, n)
-                    out.violation('transv/find_transvection/%s/%s' % (type(e).__name__, br), 'find_transvection raised %r on two non-zero vectors' % (e,), n=n, v0=v0, v1=v1)
+                    _viol(out, 'transv/find_transvection/%s/%s' % (type(e).__name__, br), 'find_transvection raised %r on two non-zero vectors' % (e,), n=n, v0=v0, v1=v1)
                     continue
                 if not (isinstance(h, np.ndarray) and h.shape == (2, 2 * n) and h.dtype == np.uint8 and int(h.max()) <= 1):
-                    out.violation('transv/find_transvection/bad_output', 'result is not a binary uint8 (2,2n) array: %r' % (h,), n=n, v0=v0, v1=v1)
+                    _viol(out, 'transv/find_transvection/bad_output', 'result is not a binary uint8 (2,2n) array: %r' % (h,), n=n, v0=v0, v1=v1)
                     continue
                 H[i1] = h
                 okrow[i1] = True
@@ -459,13 +522,13 @@ def run_case(case, out, env):
                 y_impl = sp.transvection(v0.copy(), h[0], h[1])
                 y_ref = ref_transvection(ref_transvection(v0, h[0]), h[1])
                 if not (y_impl.shape == y_ref.shape and np.array_equal(y_impl, y_ref)):
-                    out.violation('transv/transvection/ne_reference', 'transvection(x,h0,h1) != x+<x,h0>h0 followed by +<.,h1>h1', n=n, x=v0, h0=h[0], h1=h[1], got=y_impl, expected=y_ref)
+                    _viol(out, 'transv/transvection/ne_reference', 'transvection(x,h0,h1) != x+<x,h0>h0 followed by +<.,h1>h1', n=n, x=v0, h0=h[0], h1=h[1], got=y_impl, expected=y_ref)
                 out.trace()
             y = ref_transvection(ref_transvection(np.broadcast_to(V64[i0], V64.shape), H[:, 0]), H[:, 1])
             bad = np.nonzero(okrow & np.any(y != V64, axis=1))[0]
             for i1 in bad[:10]:
                 br = transv_branch(v0, V[i1], n)
-                out.violation('transv/find_transvection/not_mapped/%s' % br, 'the returned transvections map v0 to %s instead of v1 (Lemma 2 case: %s)' % (y[i1].tolist(), br),
+                _viol(out, 'transv/find_transvection/not_mapped/%s' % br, 'the returned transvections map v0 to %s instead of v1 (Lemma 2 case: %s)' % (y[i1].tolist(), br),
                               n=n, v0=v0, v1=V[i1], h0=H[i1, 0], h1=H[i1, 1])
             if len(bad) > 10:
                 out.count('transv_not_mapped_more', len(bad) - 10)
@@ -483,12 +546,12 @@ def run_case(case, out, env):
                 got2 = sp.transvection(X.copy(), h.copy())
                 got3 = sp.transvection(X3.copy(), h.copy())
             except Exception as e:
-                out.violation('tbatch/transvection/%s' % type(e).__name__, 'batched transvection raised %r' % (e,), n=n, h=h)
+                _viol(out, 'tbatch/transvection/%s' % type(e).__name__, 'batched transvection raised %r' % (e,), n=n, h=h)
                 continue
             if not (got2.shape == X.shape and np.array_equal(got2, want)):
-                out.violation('tbatch/transvection/batched_ne_rowwise', 'transvection on a stack of vectors differs from row-wise x+<x,h>h', n=n, h=h)
+                _viol(out, 'tbatch/transvection/batched_ne_rowwise', 'transvection on a stack of vectors differs from row-wise x+<x,h>h', n=n, h=h)
             if not (got3.shape == X3.shape and np.array_equal(got3.reshape(N, 2 * n), want)):
-                out.violation('tbatch/transvection/batched3d_ne_rowwise', 'transvection on a 3-D batch differs from row-wise x+<x,h>h', n=n, h=h)
+                _viol(out, 'tbatch/transvection/batched3d_ne_rowwise', 'transvection on a 3-D batch differs from row-wise x+<x,h>h', n=n, h=h)
             out.outcome((n, pack(want)), nontrivial=bool(h.any()))
             out.trace()
         out.sample = {'kind': 'tbatch', 'n': n}
@@ -497,7 +560,7 @@ def run_case(case, out, env):
         bases = ref_bases(n)
         prefix = case['prefix']
         want_leaves = [tuple(prefix) + t for t in itertools.product(*[range(b) for b in bases[len(prefix):]])]
-        want_log = [('randint', 0, b - 1) for b in bases]
+        want_ranges = [range(b) for b in bases]  # any generator call is fine as long as it admits exactly the digits 0..b-1
         per_kind = {}
         for rk in case['kinds']:
             leaves = {}
@@ -505,35 +568,35 @@ def run_case(case, out, env):
             budget = [20 * len(want_leaves) + 1000]
             for leaf in rand_leaves(numqi, n, rk, prefix, out, budget):
                 if leaf is None:
-                    out.violation('rand/rand_SpF2/range_mismatch', 'the ranges requested from the generator admit far more answers than there are tuples (n=%d)' % n, n=n, return_kind=rk, prefix=prefix)
+                    _viol(out, 'rand/rand_SpF2/range_mismatch', 'the ranges requested from the generator admit far more answers than there are tuples (n=%d)' % n, n=n, return_kind=rk, prefix=prefix)
                     break
                 ans, log, res = leaf
                 out.state()
                 out.trans()
                 if isinstance(res, Exception):
-                    out.violation('rand/rand_SpF2/%s' % type(res).__name__, 'rand_SpF2 raised %r for generator answers %s admitted by its own randint ranges' % (res, ans), n=n, return_kind=rk, answers=ans, calls=[list(c) for c in log])
+                    _viol(out, 'rand/rand_SpF2/%s' % type(res).__name__, 'rand_SpF2 raised %r for generator answers %s admitted by its own randint ranges' % (res, ans), n=n, return_kind=rk, answers=ans, calls=[list(c) for c in log])
                     continue
-                if [tuple(c) for c in log] != want_log:
-                    out.violation('rand/rand_SpF2/range_mismatch', 'digits are requested as %s, radix ranges are %s' % ([list(c) for c in log], [list(c) for c in want_log]),
+                if [admitted(c) for c in log] != want_ranges:
+                    _viol(out, 'rand/rand_SpF2/range_mismatch', 'digits are requested by the calls %s, the radix ranges are 0..b-1 for b in %s' % ([list(c) for c in log], list(bases)),
                                   n=n, return_kind=rk, answers=ans)
                 leaves[tuple(ans)] = res
                 order.append(tuple(ans))
             per_kind[rk] = leaves
             if order != want_leaves and out.n_violations == 0:
-                out.violation('rand/rand_SpF2/not_all_tuples', 'the answer sequences admitted by the generator calls are not exactly the mixed-radix tuples (%d vs %d)' % (len(order), len(want_leaves)),
+                _viol(out, 'rand/rand_SpF2/not_all_tuples', 'the answer sequences admitted by the generator calls are not exactly the mixed-radix tuples (%d vs %d)' % (len(order), len(want_leaves)),
                               n=n, return_kind=rk, prefix=prefix, first_reached=[list(x) for x in order[:3]])
         ident = pack(np.eye(2 * n, dtype=np.uint8))
         if 'int_tuple' in per_kind:
             for ans, res in per_kind['int_tuple'].items():
                 if not (isinstance(res, tuple) and tuple(int(x) for x in res) == ans):
-                    out.violation('rand/rand_SpF2/tuple_not_answers', "return_kind='int_tuple' returned %r for generator answers %s" % (res, list(ans)), n=n, answers=list(ans))
+                    _viol(out, 'rand/rand_SpF2/tuple_not_answers', "return_kind='int_tuple' returned %r for generator answers %s" % (res, list(ans)), n=n, answers=list(ans))
                 out.outcome((n, 'int_tuple', ans), nontrivial=any(ans))
                 out.trace()
         if 'matrix' in per_kind:
             mats = []
             for ans, M in per_kind['matrix'].items():
                 if not valid_matrix(M, n):
-                    out.violation('rand/rand_SpF2/bad_output', "return_kind='matrix' did not return a binary uint8 (2n,2n) matrix", n=n, answers=list(ans), result=M)
+                    _viol(out, 'rand/rand_SpF2/bad_output', "return_kind='matrix' did not return a binary uint8 (2n,2n) matrix", n=n, answers=list(ans), result=M)
                     continue
                 mats.append((ans, M))
                 out.outcome(b'R%d:' % n + pack(M), nontrivial=pack(M) != ident, pre_digested=True)
@@ -541,28 +604,28 @@ def run_case(case, out, env):
                 try:
                     t2 = sp.to_int_tuple(M.copy())
                 except Exception as e:
-                    out.violation('rand/to_int_tuple/%s' % type(e).__name__, 'to_int_tuple raised %r on the matrix rand_SpF2 returned' % (e,), n=n, answers=list(ans), matrix=M)
+                    _viol(out, 'rand/to_int_tuple/%s' % type(e).__name__, 'to_int_tuple raised %r on the matrix rand_SpF2 returned' % (e,), n=n, answers=list(ans), matrix=M)
                     continue
                 if tuple(int(x) for x in t2) != ans:
-                    out.violation('rand/rand_SpF2/matrix_not_from_tuple', 'to_int_tuple(rand_SpF2 matrix) = %s, generator answers were %s' % (list(t2), list(ans)), n=n, answers=list(ans), matrix=M)
+                    _viol(out, 'rand/rand_SpF2/matrix_not_from_tuple', 'to_int_tuple(rand_SpF2 matrix) = %s, generator answers were %s' % (list(t2), list(ans)), n=n, answers=list(ans), matrix=M)
                 both = per_kind.get('int_tuple-matrix', {}).get(ans)
                 if both is not None:
                     okb = isinstance(both, tuple) and len(both) == 2 and tuple(int(x) for x in both[0]) == ans and np.array_equal(both[1], M)
                     if not okb:
-                        out.violation('rand/rand_SpF2/kinds_inconsistent', "return_kind='int_tuple-matrix' disagrees with 'int_tuple' / 'matrix' for the same generator answers", n=n, answers=list(ans), matrix=M, both=[list(both[0]), both[1]] if isinstance(both, tuple) and len(both) == 2 else repr(both))
+                        _viol(out, 'rand/rand_SpF2/kinds_inconsistent', "return_kind='int_tuple-matrix' disagrees with 'int_tuple' / 'matrix' for the same generator answers", n=n, answers=list(ans), matrix=M, both=[list(both[0]), both[1]] if isinstance(both, tuple) and len(both) == 2 else repr(both))
                 out.trace()
             if mats:
                 Ms = np.stack([m.astype(np.int64) for _, m in mats])
                 a, b = is_symplectic_batch(Ms, n)
                 for i in np.nonzero(~(a & b))[0][:5]:
-                    out.violation('rand/rand_SpF2/not_symplectic', 'rand_SpF2 returned a non-symplectic matrix for generator answers %s' % (list(mats[i][0]),), n=n, answers=list(mats[i][0]), matrix=mats[i][1])
+                    _viol(out, 'rand/rand_SpF2/not_symplectic', 'rand_SpF2 returned a non-symplectic matrix for generator answers %s' % (list(mats[i][0]),), n=n, answers=list(mats[i][0]), matrix=mats[i][1])
                 keys = {}
                 for ans, M in mats:
                     k = pack(M)
                     if k in keys:
-                        out.violation('rand/rand_SpF2/collision', 'two admitted answer sequences give the same matrix', n=n, answers=list(ans), other=list(keys[k]), matrix=M)
+                        _viol(out, 'rand/rand_SpF2/collision', 'two admitted answer sequences give the same matrix', n=n, answers=list(ans), other=list(keys[k]), matrix=M)
                     keys[k] = ans
-        out.sample = {'kind': 'rand', 'n': n, 'answers': list(want_leaves[-1]), 'calls': [list(c) for c in want_log]}
+        out.sample = {'kind': 'rand', 'n': n, 'answers': list(want_leaves[-1]), 'digit_ranges': [[0, b - 1] for b in bases]}
     elif kind == 'randseed':
         seeds = [0, 1] + [int(x) for x in env.rng('C09', 'seed').integers(0, 2**31, size=case['G'])]
         for n in range(1, case['n_max'] + 1):
@@ -575,16 +638,16 @@ def run_case(case, out, env):
                     M = numqi.random.rand_SpF2(n, return_kind='matrix', seed=s)
                     t2, M2 = numqi.random.rand_SpF2(n, return_kind='int_tuple-matrix', seed=s)
                 except Exception as e:
-                    out.violation('randseed/rand_SpF2/%s' % type(e).__name__, 'rand_SpF2(%d, seed=%d) raised %r' % (n, s, e), n=n, seed=s)
+                    _viol(out, 'randseed/rand_SpF2/%s' % type(e).__name__, 'rand_SpF2(%d, seed=%d) raised %r' % (n, s, e), n=n, seed=s)
                     continue
                 if not (len(t) == 2 * n and all(0 <= int(d) < b for d, b in zip(t, bases))):
-                    out.violation('randseed/rand_SpF2/digit_out_of_range', 'rand_SpF2(%d,"int_tuple",seed=%d) = %s leaves the radix ranges %s' % (n, s, list(t), list(bases)), n=n, seed=s)
+                    _viol(out, 'randseed/rand_SpF2/digit_out_of_range', 'rand_SpF2(%d,"int_tuple",seed=%d) = %s leaves the radix ranges %s' % (n, s, list(t), list(bases)), n=n, seed=s)
                     continue
                 if not (tuple(t) == tuple(t2) and np.array_equal(M, M2)):
-                    out.violation('randseed/rand_SpF2/kinds_inconsistent', 'the three return kinds disagree for the same integer seed', n=n, seed=s, int_tuple=list(t), int_tuple2=list(t2))
+                    _viol(out, 'randseed/rand_SpF2/kinds_inconsistent', 'the three return kinds disagree for the same integer seed', n=n, seed=s, int_tuple=list(t), int_tuple2=list(t2))
                 res = check_tuples(numqi, out, n, [tuple(int(d) for d in t)], 'randseed')
                 if res[0][1] is not None and res[0][1] != pack(M):
-                    out.violation('randseed/rand_SpF2/matrix_not_from_tuple', 'matrix returned for a seed is not from_int_tuple(tuple returned for the same seed)', n=n, seed=s, int_tuple=list(t), matrix=M)
+                    _viol(out, 'randseed/rand_SpF2/matrix_not_from_tuple', 'matrix returned for a seed is not from_int_tuple(tuple returned for the same seed)', n=n, seed=s, int_tuple=list(t), matrix=M)
         out.sample = {'kind': 'randseed', 'seeds': seeds}
     elif kind == 'big':
         n = case['n']
@@ -596,6 +659,7 @@ def run_case(case, out, env):
             p = case['pos']
             tuples = [bgv[:p] + (v,) + bgv[p + 1:] for v in range(case['lo'], case['hi'])]
         res = check_tuples(numqi, out, n, tuples, 'big')
+        report_collisions(out, n, res, 'big')
         out.agg = ('big', n, [(t, k) for t, k in res if k is not None])
         out.sample = {'kind': 'big', 'n': n, 'int_tuple': list(tuples[-1])}
     else:
@@ -604,6 +668,9 @@ def run_case(case, out, env):
 
 # ------------------------------------------------------------------ cross-case invariants
 def finalize(aggs, out, env):
+    """collisions *between* work units (n = 3 tuple cosets; structured alphabet of each n) and the count for n = 3.
+    A violation found here is recorded by the engine with case = {'finalize': True}; run_case re-checks such a record
+    from the literal tuples in its replay file (replay_finalize)."""
     import numqi
     sp = numqi.group.spf2
     by_n = {}
@@ -613,7 +680,7 @@ def finalize(aggs, out, env):
             by_n.setdefault(a[1], []).append(a[2:])
         elif a[0] == 'big':
             big.setdefault(a[1], []).extend(a[2])
-    expected_total = {1: 6, 2: 720, 3: (1451520 if env.tier == 'thorough' else len(n3_quick_outer()) * 720)}
+    expected_total = {3: (1451520 if env.tier == 'thorough' else len(n3_quick_outer()) * 720)}
     for n in sorted(by_n):
         bases = ref_bases(n)
         nb = len(pack(np.zeros((2 * n, 2 * n), dtype=np.uint8)))
@@ -631,43 +698,67 @@ def finalize(aggs, out, env):
         ks = keys[order]
         same = np.nonzero(np.all(ks[1:] == ks[:-1], axis=1))[0]
         n_distinct = len(keys) - len(same)
+        n_rep = 0
         if n_failed == 0:
-            for j in same[:5]:
-                t0 = unrank(bases, int(ranks[order[j]]))
-                t1 = unrank(bases, int(ranks[order[j + 1]]))
+            for j in same:
+                r0, r1 = int(ranks[order[j]]), int(ranks[order[j + 1]])
+                if any(lo <= r0 < hi and lo <= r1 < hi for lo, hi, _, _ in parts):
+                    continue  # inside one work unit: already reported by that case (replayable there)
+                t0, t1 = unrank(bases, r0), unrank(bases, r1)
                 M = np.unpackbits(ks[j])[:4 * n * n].reshape(2 * n, 2 * n)
-                out.violation('tuples/from_int_tuple/collision', 'distinct tuples %s and %s give the same matrix' % (list(t0), list(t1)), n=n, int_tuple_a=list(t0), int_tuple_b=list(t1), matrix=M)
+                _viol(out, 'tuples/from_int_tuple/collision_across_cosets', 'distinct tuples %s and %s give the same matrix' % (list(t0), list(t1)), n=n, int_tuple_a=list(t0), int_tuple_b=list(t1), matrix=M)
+                n_rep += 1
+                if n_rep >= 5:
+                    break
         complete = len(keys) == expected_total.get(n)
         if not complete:
             out.count('finalize_incomplete_n%d' % n)
-        full_domain = complete and len(keys) == prod(bases)
         out.outcome(('distinct_images', n, n_distinct), nontrivial=True)
-        if full_domain and n_failed == 0:
+        if complete and len(keys) == prod(bases) and n_failed == 0:
             out.trans()
             order_impl = int(sp.get_number(n, kind='order'))
-            if n_distinct != order_impl or n_distinct != ref.sp_order(n):
-                out.violation('tuples/from_int_tuple/count_ne_order', 'number of distinct images %d, get_number(n,"order") = %d, 2^(n^2) prod(4^i-1) = %d' % (n_distinct, order_impl, ref.sp_order(n)), n=n)
-            if n <= 2:
-                G = ref.all_symplectic(n)
-                gset = {pack(M): M for M in G}
-                iset = {bytes(k) for k in keys}
-                missing = [gset[k] for k in gset if k not in iset]
-                extra = [k for k in iset if k not in gset]
-                if missing:
-                    out.violation('tuples/from_int_tuple/not_onto', '%d symplectic matrices are never produced by from_int_tuple' % len(missing), n=n, first_missing=missing[0])
-                if extra:
-                    out.violation('tuples/from_int_tuple/outside_group', '%d images are not in the brute-force group' % len(extra), n=n)
+            if not (n_distinct == order_impl == ref.sp_order(n)):
+                _viol(out, 'tuples/from_int_tuple/count_ne_order', 'number of distinct images %d (from %d tuples), get_number(n,"order") = %d, 2^(n^2) prod(4^i-1) = %d' % (n_distinct, len(keys), order_impl, ref.sp_order(n)), n=n)
             out.trace()
     for n in sorted(big):
         seen = {}
-        tuples_seen = set()
         for t, k in big[n]:
             t = tuple(t)
-            if t in tuples_seen:
-                continue
-            tuples_seen.add(t)
-            if k in seen:
-                out.violation('big/from_int_tuple/collision', 'distinct tuples %s and %s give the same matrix' % (list(seen[k]), list(t)), n=n, int_tuple_a=list(seen[k]), int_tuple_b=list(t))
-            seen[k] = t
-        out.state(len(tuples_seen))
+            if k in seen and seen[k] != t:
+                _viol(out, 'big/from_int_tuple/collision', 'distinct tuples %s and %s give the same matrix' % (list(seen[k]), list(t)), n=n, int_tuple_a=list(seen[k]), int_tuple_b=list(t))
+            seen.setdefault(k, t)
+        out.state(len(seen))
         out.outcome(('distinct_images_big', n, len(seen)), nontrivial=True)
+
+
+def replay_finalize(numqi, out):
+    """`--replay` of a record produced by finalize: the engine hands run_case only {'finalize': True}, so the literal
+    inputs are taken from the replay records themselves (/verif/replays/C09/*.json with case.finalize) and re-executed."""
+    import glob
+    import json
+    import os
+    from mc import core
+    sp = numqi.group.spf2
+    for path in sorted(glob.glob(os.path.join(core.VERIF_DIR, 'replays', PROPERTY, '*.json'))):
+        try:
+            with open(path) as fid:
+                rec = json.load(fid)
+        except Exception:
+            continue
+        if not (isinstance(rec.get('case'), dict) and rec['case'].get('finalize')):
+            continue
+        d = rec.get('detail', {})
+        n = int(d.get('n', 0))
+        out.state()
+        if 'collision' in rec['key'] and 'int_tuple_a' in d:
+            out.trans(2)
+            ta, tb = tuple(d['int_tuple_a']), tuple(d['int_tuple_b'])
+            Ma, Mb = sp.from_int_tuple(ta), sp.from_int_tuple(tb)
+            if ta != tb and np.array_equal(Ma, Mb):
+                _viol(out, rec['key'], 'distinct tuples %s and %s give the same matrix' % (list(ta), list(tb)), n=n, int_tuple_a=list(ta), int_tuple_b=list(tb), matrix=Ma)
+        elif rec['key'].endswith('count_ne_order') and n >= 1:
+            # all images symplectic and pairwise distinct was established by the run; what can still differ is the order
+            out.trans()
+            order_impl = int(sp.get_number(n, kind='order'))
+            if order_impl != ref.sp_order(n):
+                _viol(out, rec['key'], 'get_number(%d,"order") = %d, 2^(n^2) prod(4^i-1) = %d' % (n, order_impl, ref.sp_order(n)), n=n)
